@@ -120,3 +120,48 @@ def stmt_of(func_node, target):
   while n in pm and not isinstance(n, ast.stmt):
     n = pm[n]
   return n
+
+
+def rename_names(node, mapping):
+  """Deep copy of `node` with every Name in `mapping` renamed: rules discover
+  the variables that play a role (by definition / use), then match against
+  canonical role names, so that renaming a local never changes a verdict."""
+  import copy
+
+  class _R(ast.NodeTransformer):
+    def visit_Name(self, n):
+      if n.id in mapping:
+        return ast.copy_location(ast.Name(id=mapping[n.id], ctx=n.ctx), n)
+      return n
+  return _R().visit(copy.deepcopy(node))
+
+
+class RoleView:
+  """A function seen under canonical role names (same interface as FuncInfo
+  for the parts the rules use)."""
+
+  def __init__(self, func, node):
+    self.node = node
+    for a in ('module', 'qualname', 'key', 'cls', 'name'):
+      setattr(self, a, getattr(func, a, None))
+    self.orig = func
+
+  def params(self):
+    return self.orig.params()
+
+
+def role_view(func, roles):
+  """`func` with the variables in `roles` {actual name: role name} renamed.
+  Returns None when the renaming would conflate two variables: two names
+  with one role, or a role name already used by another variable."""
+  roles = {k: v for k, v in roles.items() if k != v}
+  if len(set(roles.values())) != len(roles):
+    return None
+  used = set(n.id for n in ast.walk(func.node) if isinstance(n, ast.Name))
+  used |= set(a.arg for n in ast.walk(func.node)
+              if isinstance(n, ast.arguments)
+              for a in n.posonlyargs + n.args + n.kwonlyargs)
+  for k, v in roles.items():
+    if v in used and v not in roles:
+      return None
+  return RoleView(func, rename_names(func.node, roles))
